@@ -149,6 +149,10 @@ def modifier_cases():
         "two-terms": {"O": {"factors": ["1.5", "-0.25"], "reactants": [["H"], ["C", "CO"]]}},
         "two-species": {"H": {"factors": ["2.0"], "reactants": [["O"]]}, "C": {"factors": ["-4.0"], "reactants": [["CH", "O"]]}},
         "dep0": {"H": {"factors": ["1.0"], "reactants": [[]]}},
+        # factors whose top-level operator binds weaker than '*' (the factor is one unit in every derivative)
+        "dep2-sum-factor": {"H": {"factors": ["zeta - 2.0*Av"], "reactants": [["H", "C"]]}},
+        "dep2-repeated-leading-minus": {"CH": {"factors": ["-zeta + Av"], "reactants": [["H", "H"]]}},
+        "dep3-quotient-sum": {"CO": {"factors": ["zeta/2.0 + Av", "Av - zeta"], "reactants": [["H", "C", "O"], ["O", "CH"]]}},
     }
     out = []
     for nm, mod in shapes.items():
